@@ -188,6 +188,7 @@ pub fn tree_walker(
         let gitignore = parse_ignore(&source, config)?;
 
         for entry in WalkDir::new(&source)
+            .follow_links(config.dereference)
             .into_iter()
             .filter_entry(|e| ignore_filter(e, &gitignore))
         {
